@@ -330,7 +330,12 @@ def save_hdf5(h5path, indent, user_rate, user_name, user_comment, h5mode="a"):
         if not new_group:
             # Only allow overriding of user data if fit matches.
             # Otherwise, the rating might be wrong.
-            if not np.allclose(indent["fit"], ana[idd]["fit"], equal_nan=True):
+            # (forces are of the order of 1e-9 N: compare relative to the
+            # data, not with numpy's default absolute tolerance of 1e-8)
+            fit_old = ana[idd]["fit"][...]
+            if (fit_old.shape != indent["fit"].shape
+                or not np.allclose(indent["fit"], fit_old, rtol=1e-9, atol=0,
+                                   equal_nan=True)):
                 raise ValueError("Cannot store rating for different fit in "
                                  "same rating container!")
             out = ana[idd]
